@@ -8,14 +8,20 @@ def handle_min_max_width(function):
     @functools.wraps(function)
     def wrapper(box, *args):
         computed_margins = box.margin_left, box.margin_right
+        # The function may shift the box (rtl), don't shift it twice.
+        position_x = getattr(box, 'position_x', None)
         result = function(box, *args)
         if box.width > box.max_width:
             box.width = box.max_width
             box.margin_left, box.margin_right = computed_margins
+            if position_x is not None:
+                box.position_x = position_x
             result = function(box, *args)
         if box.width < box.min_width:
             box.width = box.min_width
             box.margin_left, box.margin_right = computed_margins
+            if position_x is not None:
+                box.position_x = position_x
             result = function(box, *args)
         return result
     wrapper.without_min_max = function
